@@ -138,7 +138,7 @@ class Ctx:
         v = self.polyvars.get(sid)
         if v is None:
             kind = P.TAB.kind[sid]
-            if kind in ("cplx", "cplxbar", "unit", "unitbar", "I", "defbar"):
+            if kind in ("cplx", "cplxbar", "unit", "I"):
                 raise P.Unsupported(
                     f"ordering/equality branch on a complex symbolic quantity ({P.TAB.names[sid]})"
                 )
@@ -149,19 +149,20 @@ class Ctx:
             elif sid in P.TAB.nonneg:
                 self.add(v >= 0)
             pr = P.TAB.powrule.get(sid)
-            if pr is not None:
-                self.add(v ** pr[0] == pr[1])
-            ip = P.TAB.invpair.get(sid)
-            if ip is not None and ip in self.polyvars:
-                self.add(v * self.polyvars[ip] == 1)
+            if pr is not None and pr[0] == 2:
+                self.add(v * v == pr[1])
         return v
 
     def poly_to_z3(self, p):
         terms = []
         for m, c in p.t.items():
             t = z3.RealVal(str(Fraction(c)))
-            for s in m:
-                t = t * self.polyvar(s)
+            for s, e in m:
+                if not isinstance(e, int):
+                    raise P.Unsupported("branch on a quantity with a fractional power")
+                v = self.polyvar(s)
+                for _ in range(abs(e)):
+                    t = t * v if e > 0 else t / v
             terms.append(t)
         if not terms:
             return z3.RealVal(0)
